@@ -184,10 +184,14 @@ fn check_break(case: &Case, obs: &mut Obs) -> Verdict {
             }
             let end = pos + p.word.len();
             if !last {
-                // the cut must be at the start of an ordinary character
-                match toks.iter().find(|t| t.start == end) {
-                    Some(t) => match t.kind {
-                        Kind::Char(c) => {
+                // the cut must be at a token boundary (never inside a sequence or a character); the following piece
+                // may begin with escape sequences, its first visible character must not have fitted
+                match toks.iter().position(|t| t.start == end) {
+                    Some(mut k) => {
+                        while k < toks.len() && !matches!(toks[k].kind, Kind::Char(_)) {
+                            k += 1;
+                        }
+                        if let Some(Kind::Char(c)) = toks.get(k).map(|t| t.kind) {
                             if !(p.width + ref_char_width(c) > limit) {
                                 return Verdict::Violated(format!(
                                     "piece {:?} (width {}) is not maximal: next character {:?} (width {}) would have fitted in {}",
@@ -195,10 +199,7 @@ fn check_break(case: &Case, obs: &mut Obs) -> Verdict {
                                 ));
                             }
                         }
-                        _ => {
-                            return Verdict::Violated(format!("cut at byte {} of {:?} is directly before an escape sequence", end, word.word));
-                        }
-                    },
+                    }
                     None => {
                         return Verdict::Violated(format!("cut at byte {} of {:?} falls inside an escape sequence or character", end, word.word));
                     }
